@@ -624,7 +624,7 @@ func c15Stateless(c *Ctx) {
 		}
 	}
 	c.OK(rule, "scope", root.Pos(), "%d first-party functions reachable from TokenInfo, %d package variables referenced", len(seen), n)
-	c.Floor(rule, 3, "scope + the two configured keys")
+	c.Floor(rule, 2, "scope + at least one configured key variable")
 }
 
 // c15SilentRefusal: a refused token discloses no claims. TokenInfo copies UserInfo's error
